@@ -59,6 +59,9 @@ pub struct Outcome {
   /// timestamps, hash order in file contents), the property can hand back a self-contained version
   /// of the case (e.g. with the built files attached); it is saved as the replay instead.
   pub replay_override: Option<Value>,
+  /// the harness could not judge this case (watchdog, scheduler stuck): counted, reported as exit 2
+  /// when nothing else failed - never as a violation
+  pub inconclusive: Option<String>,
 }
 
 impl Outcome {
@@ -584,9 +587,18 @@ pub fn run_property<P: Property>(tier: Tier) -> i32 {
   let record = {
     let stats = stats.clone();
     let known = known.clone();
+    let stop_on_trouble = stop.clone();
     move |case: &P::Case, o: &Outcome, counting: bool| -> Option<Failure> {
       let mut st = stats.lock().unwrap();
       if counting {
+        if let Some(why) = o.inconclusive.as_ref() {
+          if st.panics == 0 {
+            eprintln!("inconclusive case (harness, not a violation): {why}");
+          }
+          st.panics += 1;
+          // an inconclusive case usually means every similar case will burn its watchdog too
+          stop_on_trouble.store(true, Ordering::SeqCst);
+        }
         st.cases += 1;
         st.evaluations += o.evals.max(1);
         st.excluded_known += o.excluded_known;
